@@ -287,6 +287,14 @@ func probe(n int, mode string) {
 				}
 				line = fmt.Sprintf("decx %s %s", t.Name, kit.Hex(bz))
 			}
+			if mode == "pad" {
+				pv := genTop(t, seed, depth, true)
+				bz := append([]byte(nil), encReflect(pv).bz...)
+				for j := 0; j < 1+r.Intn(3) && len(bz) > 0; j++ {
+					bz = padAt(bz, r.Intn(len(bz)))
+				}
+				line = fmt.Sprintf("decx %s %s", t.Name, kit.Hex(bz))
+			}
 			var impl, orc string
 			if p, msg := safely(func() { impl, orc = execOp(strings.Fields(line)) }); p {
 				orc = "HARNESS-PANIC " + msg
